@@ -256,7 +256,7 @@ where
                             .unwrap_or("");
                         let rematch = path
                             .trim_end_matches(&format!("{matched}{remaining}"));
-                        let new_partial = self.segments.test(rematch).unwrap();
+                        let new_partial = self.segments.test(rematch)?;
                         params = new_partial.params;
                     }
 
